@@ -126,8 +126,9 @@ def _plane(rng, mode, shape, kind, force=None):
                     if not _ok_layer(M): continue
                     layers = [M]
                 elif t == '3d':
-                    k = int(rng.integers(2, 6))
-                    layers = partition(rng, M, k, interleave=bool(rng.integers(0, 2)))
+                    k = int(rng.integers(1, 6))          # k = 1: a 3-D mask with a single layer
+                    layers = [M] if k == 1 else partition(rng, M, k, interleave=bool(rng.integers(0, 2)))
+                    if k == 1 and not _ok_layer(M): continue
                     if layers is None: continue
                 else:
                     k = int(rng.integers(2, 4))
